@@ -275,6 +275,8 @@ CONTROLS = [control_id_ordering]
 
 def r6_batch_slots(ctx):
     c12.r2_slot_index(ctx)
+    # and the front end hands the slots out one entry per call (no slot skipped: later answers would move to earlier calls)
+    c12.r8_frontend_keeps_positions(ctx, "C03.R6b")
 
 
 
